@@ -332,6 +332,7 @@ pub fn run(cfg: &Cfg) {
     };
     let inject = cfg.space == "c03";
     let opts = Opts::default();
+    s.bytes_mode = matches!(cfg.space.as_str(), "c05" | "c13");
     for (i, p) in pats.iter().enumerate() {
         if i % cfg.nshards != cfg.shard {
             continue;
